@@ -16,7 +16,7 @@ import (
 
 func init() {
 	register(Property{ID: "C11", Level: "proof", Run: runC11,
-		Technique: "static analysis: type-graph walk (go/types) from conf.Conf and conf.Path against the kind cases of conf.deepClone, AST shape rules on each case, SSA rule on the Clone methods",
+		Technique: "static analysis: type-graph walk (go/types) from conf.Conf and conf.Path against the kinds conf.deepClone compares rv.Kind() with; per kind, evaluation of deepClone on SSA under the assumption rv.Kind() == K (feasible returns, allocation, recursion; prop_gen_c11.go); SSA rule on the Clone methods",
 		Text: "Every type reachable from conf.Conf and conf.Path (all fields, including json:\"-\" ones) is of a kind for which conf.deepClone has a case that allocates a fresh container and recurses into every element (pointer, struct, slice, map, interface), or is a value kind; reference kinds without a case (func, chan, unsafe pointer), module-defined structs with unexported fields (silently dropped by CanSet) and opaque third-party structs outside a one-row table are violations. Each case of deepClone allocates, recurses, and returns the input unchanged only under IsNil. Conf.Clone/Path.Clone call deepClone on the receiver value - the whole, unmodified receiver: no receiver field is overwritten before the call, no field of the result is assigned afterwards (except from a deepClone of the receiver's same field), and the method contains no map update, store through a reference or call other than reflect.ValueOf → deepClone → Interface. Together: a clone shares no mutable storage with the original. Obligations = reachable types + switch cases + Clone methods.",
 		Note: "trusted: reflect semantics (New/MakeSlice/MakeMap/Set, CanSet false for unexported fields); the dynamic values behind interface-typed fields (OptionalPath.Values, built with reflect.StructOf from Path's own fields) consist of kinds in the same graph; table exception: Path.Regexp *regexp.Regexp is re-allocated with zeroed unexported fields - not shared, hence independent (its usability is C12/C15's concern)"})
 	addMutants(
@@ -55,7 +55,7 @@ func runC11(c *Ctx) {
 	if p == nil {
 		return
 	}
-	c.Explain = "Type-graph walk from conf.Conf and conf.Path over all struct fields; per reachable type the kind must be handled by a case of deepClone's `switch rv.Kind()` (pointer, struct, slice, map, interface) or be a value kind (bool, numbers, string, arrays of value kinds); func/chan/unsafe.Pointer, module structs with unexported fields and untabled opaque structs are violations. Each handled case must allocate (reflect.New / MakeSlice / MakeMap), call deepClone on the elements and return rv only under rv.IsNil(). Clone methods must return the address of deepClone(reflect.ValueOf(receiver)); clone_method.whole: stores in a Clone method are whole-variable initialisations of locals only - a store into a field of the receiver copy (masking) needs a store of deepClone(reflect.ValueOf($0.F)) into the same field of the result, a store into a result field needs that shape too; MapUpdate, stores through non-local addresses and calls outside {reflect.ValueOf, conf.deepClone, reflect.Value.Interface/Elem/Addr, reflect.Indirect} are violations. Not decided: reflect's own behaviour; value equality of the copy (C08)."
+	c.Explain = "Type-graph walk from conf.Conf and conf.Path over all struct fields; per reachable type the kind must be one deepClone compares rv.Kind() with (pointer, struct, slice, map, interface; any spelling of the dispatch: one or several switches, if-chains, per-kind helpers) or be a value kind (bool, numbers, string, arrays of value kinds); func/chan/unsafe.Pointer, module structs with unexported fields and untabled opaque structs are violations. For each handled kind K, under the assumption rv.Kind() == K and rv.IsNil() == false, every feasible return of deepClone is a fresh reflect.New / MakeSlice / MakeMap container (or its Elem()), a deepClone result is stored into that container with Set / SetMapIndex, and rv itself is not returned. Clone methods must return the address of deepClone(reflect.ValueOf(receiver)); clone_method.whole: stores in a Clone method are whole-variable initialisations of locals only - a store into a field of the receiver copy (masking) needs a store of deepClone(reflect.ValueOf($0.F)) into the same field of the result, a store into a result field needs that shape too; MapUpdate, stores through non-local addresses and calls outside {reflect.ValueOf, conf.deepClone, reflect.Value.Interface/Elem/Addr, reflect.Indirect} are violations. Not decided: reflect's own behaviour; value equality of the copy (C08)."
 	c.Assume = []string{"reflect behaves as documented", "values stored behind interface-typed conf fields are built from kinds in the same graph (reflect.StructOf over Path/Conf fields)"}
 
 	pk := p.Pkg("internal/conf")
@@ -66,89 +66,20 @@ func runC11(c *Ctx) {
 	}
 	c.Analysed("internal/conf.deepClone")
 
-	// ---- kinds handled by the switch
-	handled := map[string]*ast.CaseClause{}
-	var sw *ast.SwitchStmt
-	ast.Inspect(fd, func(n ast.Node) bool {
-		if s, ok := n.(*ast.SwitchStmt); ok && sw == nil {
-			if call, ok := s.Tag.(*ast.CallExpr); ok {
-				if objFullName(calleeObj(pk, call)) == "(reflect.Value).Kind" {
-					sw = s
-				}
-			}
-		}
-		return true
-	})
-	if sw == nil {
-		c.Undecided("UNRESOLVED ANCHOR deepClone: switch rv.Kind()")
+	// ---- kinds handled by deepClone and the shape of each kind's copy: decided on
+	// SSA under the assumption rv.Kind() == K (prop_gen_c11.go), independent of
+	// how the kind dispatch is written (one switch, two switches, if-chain, helpers)
+	dc := c.fn(p, "internal/conf", "", "deepClone")
+	if dc == nil {
 		return
 	}
-	for _, st := range sw.Body.List {
-		cc := st.(*ast.CaseClause)
-		for _, e := range cc.List {
-			if o := pk.TypesInfo.Uses[selIdent(e)]; o != nil && o.Pkg() != nil && o.Pkg().Path() == "reflect" {
-				name := o.Name()
-				if name == "Ptr" {
-					name = "Pointer"
-				}
-				handled[name] = cc
-			}
+	handledKinds := c11CaseShapes(c, p, dc)
+	handled := map[string]*bool{}
+	yes := true
+	for k, v := range handledKinds {
+		if v {
+			handled[k] = &yes
 		}
-	}
-	need := map[string]string{"Pointer": "reflect.New", "Struct": "reflect.New", "Slice": "reflect.MakeSlice", "Map": "reflect.MakeMap", "Interface": "reflect.New"}
-	for kind, alloc := range need {
-		cc := handled[kind]
-		if cc == nil {
-			continue // reported per reachable type below
-		}
-		hasAlloc, hasRec := false, false
-		badReturn := ""
-		var walk func(n ast.Node, underNil bool)
-		walk = func(n ast.Node, underNil bool) {
-			switch x := n.(type) {
-			case *ast.IfStmt:
-				isNil := false
-				if call, ok := unparen(x.Cond).(*ast.CallExpr); ok && objFullName(calleeObj(pk, call)) == "(reflect.Value).IsNil" {
-					isNil = true
-				}
-				walk(x.Body, underNil || isNil)
-				if x.Else != nil {
-					walk(x.Else, underNil)
-				}
-				return
-			case *ast.ReturnStmt:
-				if len(x.Results) == 1 {
-					if id, ok := unparen(x.Results[0]).(*ast.Ident); ok && id.Name == "rv" && !underNil {
-						badReturn = "returns the input value outside an IsNil guard"
-					}
-				}
-			case *ast.CallExpr:
-				fn := objFullName(calleeObj(pk, x))
-				if fn == alloc {
-					hasAlloc = true
-				}
-				if fn == "conf.deepClone" {
-					hasRec = true
-				}
-			}
-			if n == nil {
-				return
-			}
-			// generic descent
-			ast.Inspect(n, func(m ast.Node) bool {
-				if m == n || m == nil {
-					return true
-				}
-				walk(m, underNil)
-				return false
-			})
-		}
-		for _, s := range cc.Body {
-			walk(s, false)
-		}
-		c.Check("C11.case_shape", "deepClone case reflect."+kind+": allocates with "+alloc, hasAlloc, p.Pos(cc.Pos()), "")
-		c.Check("C11.case_shape", "deepClone case reflect."+kind+": recurses with deepClone on the elements", hasRec, p.Pos(cc.Pos()), "")
-		c.Check("C11.case_shape", "deepClone case reflect."+kind+": returns its input only when nil", badReturn == "", p.Pos(cc.Pos()), badReturn)
 	}
 
 	// ---- type graph
